@@ -766,6 +766,30 @@ theorem matrix_history_independent {A1 A2 A : Mat} {a1 a2 : List Hist.MOp} {o1 o
 example : Hist.vRun [3, 4] [.norm, .subA [3, 0], .norm] = .ok [25, 16] := by decide +kernel
 
 
+
+/-! ## Norm as coded since 8a680df: scaling by a power of two is value-neutral -/
+
+theorem sumRange_mul_left (n : ℕ) (c : ℚ) (t : ℕ → ℚ) : sumRange n (fun i => c * t i) = c * sumRange n t := by
+  induction n with
+  | zero => simp [sumRange]
+  | succ n ih => rw [sumRange_succ, sumRange_succ, ih]; ring
+
+/-- the scaled sum of squares, scaled back, is the plain sum of squares — for every exponent -/
+theorem vnormScaledSq_eq (e : ℤ) (u : Vec) : vnormScaledSq e u = vnormSq u := by
+  unfold vnormScaledSq vnormSq
+  have h2 : (2 : ℚ) ^ e * (2 : ℚ) ^ (-e) = 1 := by
+    rw [← zpow_add₀ (by norm_num : (2 : ℚ) ≠ 0)]; simp
+  have : ∀ i, (u.getD i 0 * (2 : ℚ) ^ (-e)) * (u.getD i 0 * (2 : ℚ) ^ (-e))
+      = ((2 : ℚ) ^ (-e) * (2 : ℚ) ^ (-e)) * (u.getD i 0 * u.getD i 0) := fun i => by ring
+  simp only [this]
+  rw [sumRange_mul_left]
+  calc (2 : ℚ) ^ e * (2 : ℚ) ^ e * ((2 : ℚ) ^ (-e) * (2 : ℚ) ^ (-e) * sumRange u.length fun i => u.getD i 0 * u.getD i 0)
+      = ((2 : ℚ) ^ e * (2 : ℚ) ^ (-e)) * ((2 : ℚ) ^ e * (2 : ℚ) ^ (-e)) * sumRange u.length (fun i => u.getD i 0 * u.getD i 0) := by ring
+    _ = _ := by rw [h2]; ring
+
+/-- the squared norm is the dot product of the vector with itself (`Norm() = sqrt(Dot(*this))` before the fix) -/
+theorem vnormSq_eq_dot (u : Vec) : dot u u = .ok (vnormSq u) := by simp [dot, vnormSq]
+
 /-! ## Chained compound assignment -/
 
 /-- a chain `(x ⊕ b) ⊕' c …` is the sequential application of the binary operators: its first
